@@ -26,6 +26,7 @@ CONSTANTS
   BugNoWitness = FALSE
   BugKeepForever = FALSE
   StaleSv = FALSE
+  BugSendUnverified = FALSE
 INVARIANTS AbsInv OwnVotesTrimmed
 PROPERTIES AbsStep
 CHECK_DEADLOCK FALSE
